@@ -10,111 +10,106 @@
 -/
 import Irc.InvProofs.Defs
 
-namespace Irc
+namespace Irc.Memb
 
 /-! ### more association-list lemmas -/
-namespace Map
-variable {α β : Type}
 
-theorem mem_keys_insert (k k' : Str) (v : α) (m : Map α) :
-    k ∈ keys (insert k' v m) ↔ k = k' ∨ k ∈ keys m := by
-  rw [mem_keys_iff, mem_keys_iff, lookup_insert]
+theorem Map.mem_keys_insert {α : Type} (k k' : Str) (v : α) (m : Map α) :
+    k ∈ Map.keys (Map.insert k' v m) ↔ k = k' ∨ k ∈ Map.keys m := by
+  rw [Map.mem_keys_iff, Map.mem_keys_iff, Map.lookup_insert]
   by_cases h : k' = k
   · subst h; simp
   · have h' : ¬ k = k' := fun e => h e.symm
     simp [h, h']
 
-theorem keys_insert_nodup (k : Str) (v : α) (m : Map α) (h : (keys m).Nodup) :
-    (keys (insert k v m)).Nodup := by
+theorem Map.keys_insert_nodup {α : Type} (k : Str) (v : α) (m : Map α) (h : (Map.keys m).Nodup) :
+    (Map.keys (Map.insert k v m)).Nodup := by
   induction m with
-  | nil => simp [insert, keys]
+  | nil => simp [Map.insert, Map.keys]
   | cons p m ih =>
     obtain ⟨k', v'⟩ := p
-    have hk : keys ((k', v') :: m) = k' :: keys m := rfl
+    have hk : Map.keys ((k', v') :: m) = k' :: Map.keys m := rfl
     rw [hk, List.nodup_cons] at h
-    simp only [insert]
+    simp only [Map.insert]
     split
     · rename_i e; subst e
-      show (k' :: keys m).Nodup
+      show (k' :: Map.keys m).Nodup
       exact List.nodup_cons.mpr h
     · rename_i e
-      show (k' :: keys (insert k v m)).Nodup
+      show (k' :: Map.keys (Map.insert k v m)).Nodup
       refine List.nodup_cons.mpr ⟨?_, ih h.2⟩
-      rw [mem_keys_insert]
+      rw [Map.mem_keys_insert]
       rintro (e' | e')
       · exact e e'
       · exact h.1 e'
 
-theorem keys_erase_nodup (k : Str) (m : Map α) (h : (keys m).Nodup) : (keys (erase k m)).Nodup := by
-  rw [keys_erase]; exact h.filter _
+theorem Map.keys_erase_nodup {α : Type} (k : Str) (m : Map α) (h : (Map.keys m).Nodup) : (Map.keys (Map.erase k m)).Nodup := by
+  rw [Map.keys_erase]; exact h.filter _
 
-theorem insert_idem (k : Str) (v : α) (m : Map α) : insert k v (insert k v m) = insert k v m := by
+theorem Map.insert_idem {α : Type} (k : Str) (v : α) (m : Map α) : Map.insert k v (Map.insert k v m) = Map.insert k v m := by
   induction m with
-  | nil => simp [insert]
+  | nil => simp [Map.insert]
   | cons p m ih =>
     obtain ⟨k', v'⟩ := p
     by_cases h : k' = k
-    · subst h; simp [insert]
-    · simp [insert, h, ih]
+    · subst h; simp [Map.insert]
+    · simp [Map.insert, h, ih]
 
-theorem lookup_mapVal (g : α → β) (k : Str) (m : Map α) :
-    lookup k (m.map (fun p => (p.1, g p.2)) : Map β) = (lookup k m).map g := by
+theorem Map.lookup_mapVal {α β : Type} (g : α → β) (k : Str) (m : Map α) :
+    Map.lookup k (m.map (fun p => (p.1, g p.2)) : Map β) = (Map.lookup k m).map g := by
   induction m with
   | nil => rfl
   | cons p m ih =>
     obtain ⟨k', v'⟩ := p
-    simp only [List.map_cons, lookup]
+    simp only [List.map_cons, Map.lookup]
     split
     · rfl
     · exact ih
 
-theorem contains_insert (k k' : Str) (v : α) (m : Map α) :
-    contains k (insert k' v m) = (decide (k = k') || contains k m) := by
-  unfold contains
-  rw [lookup_insert]
+theorem Map.contains_insert {α : Type} (k k' : Str) (v : α) (m : Map α) :
+    Map.contains k (Map.insert k' v m) = (decide (k = k') || Map.contains k m) := by
+  unfold Map.contains
+  rw [Map.lookup_insert]
   by_cases h : k' = k
   · subst h; simp
   · have h' : ¬ k = k' := fun e => h e.symm
     simp [h, h']
 
-theorem contains_erase (k k' : Str) (m : Map α) :
-    contains k (erase k' m) = (!decide (k = k') && contains k m) := by
-  unfold contains
-  rw [lookup_erase]
+theorem Map.contains_erase {α : Type} (k k' : Str) (m : Map α) :
+    Map.contains k (Map.erase k' m) = (!decide (k = k') && Map.contains k m) := by
+  unfold Map.contains
+  rw [Map.lookup_erase]
   by_cases h : k' = k
   · subst h; simp
   · have h' : ¬ k = k' := fun e => h e.symm
     simp [h, h']
 
-theorem contains_modify (k k' : Str) (f : α → α) (m : Map α) :
-    contains k (modify k' f m) = contains k m := by
-  unfold contains
-  rw [lookup_modify]
+theorem Map.contains_modify {α : Type} (k k' : Str) (f : α → α) (m : Map α) :
+    Map.contains k (Map.modify k' f m) = Map.contains k m := by
+  unfold Map.contains
+  rw [Map.lookup_modify]
   split <;> simp
 
-theorem contains_of_mem_keys {k : Str} {m : Map α} (h : k ∈ keys m) : contains k m = true :=
-  (contains_iff k m).mpr ((mem_keys_iff k m).mp h)
+theorem Map.contains_of_mem_keys {α : Type} {k : Str} {m : Map α} (h : k ∈ Map.keys m) : Map.contains k m = true :=
+  (Map.contains_iff k m).mpr ((Map.mem_keys_iff k m).mp h)
 
-theorem mem_keys_of_contains {k : Str} {m : Map α} (h : contains k m = true) : k ∈ keys m :=
-  (mem_keys_iff k m).mpr ((contains_iff k m).mp h)
+theorem Map.mem_keys_of_contains {α : Type} {k : Str} {m : Map α} (h : Map.contains k m = true) : k ∈ Map.keys m :=
+  (Map.mem_keys_iff k m).mpr ((Map.contains_iff k m).mp h)
 
-theorem lookup_eq_none_of_erase_isEmpty {k n : Str} {m : Map α} (h : (erase n m).isEmpty = true)
-    (hk : k ≠ n) : lookup k m = none := by
-  rw [← lookup_erase_ne k n m (fun e => hk e.symm)]
-  have : erase n m = [] := List.isEmpty_iff.mp h
+theorem Map.lookup_eq_none_of_erase_isEmpty {α : Type} {k n : Str} {m : Map α} (h : (Map.erase n m).isEmpty = true)
+    (hk : k ≠ n) : Map.lookup k m = none := by
+  rw [← Map.lookup_erase_ne k n m (fun e => hk e.symm)]
+  have : Map.erase n m = [] := List.isEmpty_iff.mp h
   rw [this]; rfl
 
-end Map
 
-namespace KSet
 
-theorem insert_idem (k : Str) (s : KSet) : insert k (insert k s) = insert k s := by
-  have : mem k (insert k s) = true := by rw [mem_insert]; simp
-  generalize insert k s = t at this ⊢
-  unfold insert
+theorem KSet.insert_idem (k : Str) (s : KSet) : KSet.insert k (KSet.insert k s) = KSet.insert k s := by
+  have : KSet.mem k (KSet.insert k s) = true := by rw [KSet.mem_insert]; simp
+  generalize KSet.insert k s = t at this ⊢
+  unfold KSet.insert
   simp [this]
 
-end KSet
 
 /-! ### the frame: what the membership transformers do not touch -/
 
@@ -213,7 +208,7 @@ theorem Frame.contains {w w' : World} (f : Frame w w') (n : Str) :
 /-! ### the membership clauses -/
 
 /-- channel side of the membership relation -/
-def World.memOf (w : World) (ch m : Str) : Bool :=
+def _root_.Irc.World.memOf (w : World) (ch m : Str) : Bool :=
   match Map.lookup ch w.channels with
   | some C => Map.contains m C.users
   | none => false
@@ -414,14 +409,14 @@ def Channel.without (C : Channel) (n : Str) : Channel :=
                             protecteds := KSet.erase n C.modes.protecteds } }
 
 theorem Channel.removeUser_of_member {C : Channel} {n : Str} (h : Map.contains n C.users = true) :
-    C.removeUser n = some (C.without n) := by
+    C.removeUser n = some (Channel.without C n) := by
   simp [Channel.removeUser, h, Channel.without]
 
 theorem Channel.removeUser_of_not_member {C : Channel} {n : Str} (h : Map.contains n C.users = false) :
     C.removeUser n = none := by
   simp [Channel.removeUser, h]
 
-theorem RankMirror.without {C : Channel} (h : RankMirror C) (n : Str) : RankMirror (C.without n) where
+theorem RankMirror.without {C : Channel} (h : RankMirror C) (n : Str) : RankMirror (Channel.without C n) where
   founders := rank_erase (p := (·.founder)) n h.founders
   protecteds := rank_erase (p := (·.prot)) n h.protecteds
   operators := rank_erase (p := (·.operator)) n h.operators
@@ -478,8 +473,8 @@ theorem rufc_channels_not_member {w : World} {ch n : Str} {C : Channel}
 theorem rufc_channels_member {w : World} {ch n : Str} {C : Channel}
     (h : Map.lookup ch w.channels = some C) (hm : Map.contains n C.users = true) :
     (w.removeUserFromChannel ch n).channels =
-      (if ((C.without n).users.isEmpty && !(C.without n).preconfigured) = true
-       then Map.erase ch w.channels else Map.insert ch (C.without n) w.channels) ∧
+      (if ((Channel.without C n).users.isEmpty && !(Channel.without C n).preconfigured) = true
+       then Map.erase ch w.channels else Map.insert ch (Channel.without C n) w.channels) ∧
     (w.removeUserFromChannel ch n).panicked = w.panicked := by
   unfold World.removeUserFromChannel
   rw [h]; dsimp only; rw [Channel.removeUser_of_member hm]; dsimp only
@@ -519,7 +514,7 @@ theorem rufc_memOf (w : World) (ch n ch' m : Str) :
         · simp [e2]
       | true =>
         have hc := (rufc_channels_member h hm).1
-        by_cases hh : ((C.without n).users.isEmpty && !(C.without n).preconfigured) = true
+        by_cases hh : ((Channel.without C n).users.isEmpty && !(Channel.without C n).preconfigured) = true
         · rw [if_pos hh] at hc
           rw [World.memOf_of_none (by rw [hc]; exact Map.lookup_erase_eq _ _)]
           simp only [Bool.and_eq_true, Bool.not_eq_true'] at hh
@@ -571,10 +566,10 @@ theorem rufc_memInv {w : World} {ch n : Str} (h : MemInv w) (hm : w.memOf ch n =
     · rename_i hh
       rw [Map.lookup_insert_eq] at hC'
       cases hC'
-      refine ⟨?_, (h.rankMirror ch C hC).without n, ?_⟩
+      refine ⟨?_, RankMirror.without (h.rankMirror ch C hC) n, ?_⟩
       · exact Map.keys_erase_nodup _ _ (h.membersNodup ch C hC)
       · intro he
-        cases hp : (C.without n).preconfigured with
+        cases hp : (Channel.without C n).preconfigured with
         | true => rfl
         | false => exact absurd (by rw [he, hp]; rfl) hh
   · intro m hne; rw [rufc_memOf]; simp [hne]
@@ -897,4 +892,560 @@ theorem kickMain_w (cfg : Cfg) (cn : Conn) (channel : Str) (comment : Option Str
     rw [f2.contains]
     exact h.memberIsUser channel n (hmem n hn)
 
-end Irc
+/-! ### JOIN: one insertion -/
+
+/-- user-table part of one JOIN insertion -/
+def joinUser (chn : Str) (u : User) : User :=
+  { u with channels := KSet.insert chn u.channels, invitedTo := KSet.erase chn u.invitedTo }
+
+/-- one iteration of the second loop of `process_join` -/
+def joinOne (nick chn : Str) (create : Bool) (w : World) : World :=
+  let w := { w with users := Map.modify nick (joinUser chn) w.users }
+  if create then
+    { w with channels := Map.insert chn (Channel.newOnUserJoin nick) w.channels }
+  else
+    match Map.lookup chn w.channels with
+    | some ch => { w with channels := Map.insert chn (ch.addUser nick) w.channels }
+    | none => w.panic "join: channel vanished"
+
+theorem joinApply_cons (nick : Str) (join create : Bool) (ds : List (Bool × Bool)) (chn : Str)
+    (chs : List Str) (w : World) :
+    joinApply nick ((join, create) :: ds) (chn :: chs) w =
+      joinApply nick ds chs (if join then joinOne nick chn create w else w) := rfl
+
+theorem joinOne_users (nick chn : Str) (create : Bool) (w : World) :
+    (joinOne nick chn create w).users = Map.modify nick (joinUser chn) w.users := by
+  unfold joinOne
+  cases create with
+  | true => rfl
+  | false =>
+    dsimp only
+    cases Map.lookup chn w.channels <;> rfl
+
+theorem joinOne_frame (nick chn : Str) (create : Bool) (w : World) :
+    Frame w (joinOne nick chn create w) := by
+  have hu : ucore (joinOne nick chn create w).users = ucore w.users := by
+    rw [joinOne_users]; exact ucore_modify nick _ w.users (fun u => ⟨rfl, rfl, rfl⟩)
+  have hr : (joinOne nick chn create w).conns = w.conns ∧
+      (joinOne nick chn create w).connsCount = w.connsCount ∧
+      (joinOne nick chn create w).wallops = w.wallops ∧
+      (joinOne nick chn create w).invisibleCount = w.invisibleCount ∧
+      (joinOne nick chn create w).operatorsCount = w.operatorsCount ∧
+      (joinOne nick chn create w).maxUsers = w.maxUsers := by
+    unfold joinOne
+    cases create with
+    | true => exact ⟨rfl, rfl, rfl, rfl, rfl, rfl⟩
+    | false =>
+      dsimp only
+      cases Map.lookup chn w.channels <;> exact ⟨rfl, rfl, rfl, rfl, rfl, rfl⟩
+  obtain ⟨h1, h2, h3, h4, h5, h6⟩ := hr
+  exact ⟨h1, h2, hu, h3, h4, h5, h6⟩
+
+theorem joinOne_create (nick chn : Str) (w : World) :
+    (joinOne nick chn true w).channels = Map.insert chn (Channel.newOnUserJoin nick) w.channels ∧
+    (joinOne nick chn true w).panicked = w.panicked := ⟨rfl, rfl⟩
+
+theorem joinOne_add {nick chn : Str} {w : World} {C : Channel} (h : Map.lookup chn w.channels = some C) :
+    (joinOne nick chn false w).channels = Map.insert chn (C.addUser nick) w.channels ∧
+    (joinOne nick chn false w).panicked = w.panicked := by
+  unfold joinOne
+  dsimp only
+  rw [h]
+  exact ⟨rfl, rfl⟩
+
+/-- the flags `Channel::add_user` gives to `n` -/
+def Channel.defaultChum (C : Channel) (n : Str) : ChanUserModes :=
+  { halfOper := KSet.mem n C.defaultModes.halfOperators
+    operator := KSet.mem n C.defaultModes.operators
+    founder := KSet.mem n C.defaultModes.founders
+    voice := KSet.mem n C.defaultModes.voices
+    prot := KSet.mem n C.defaultModes.protecteds }
+
+theorem Channel.addUser_users (C : Channel) (n : Str) :
+    (C.addUser n).users = Map.insert n (Channel.defaultChum C n) C.users := rfl
+
+theorem Channel.addUser_preconfigured (C : Channel) (n : Str) :
+    (C.addUser n).preconfigured = C.preconfigured := rfl
+
+theorem RankMirror.addUser {C : Channel} (h : RankMirror C) {n : Str} (hn : Map.lookup n C.users = none) :
+    RankMirror (C.addUser n) where
+  founders := rank_insert (p := (·.founder)) n (Channel.defaultChum C n) h.founders hn
+  protecteds := rank_insert (p := (·.prot)) n (Channel.defaultChum C n) h.protecteds hn
+  operators := rank_insert (p := (·.operator)) n (Channel.defaultChum C n) h.operators hn
+  halfOperators := rank_insert (p := (·.halfOper)) n (Channel.defaultChum C n) h.halfOperators hn
+  voices := rank_insert (p := (·.voice)) n (Channel.defaultChum C n) h.voices hn
+
+theorem Channel.addUser_idem (C : Channel) (n : Str) : (C.addUser n).addUser n = C.addUser n := by
+  unfold Channel.addUser
+  simp only [Map.insert_idem]
+  cases KSet.mem n C.defaultModes.halfOperators <;> cases KSet.mem n C.defaultModes.operators <;>
+    cases KSet.mem n C.defaultModes.founders <;> cases KSet.mem n C.defaultModes.voices <;>
+    cases KSet.mem n C.defaultModes.protecteds <;> simp [KSet.insert_idem]
+
+theorem rankMirror_newOnUserJoin (n : Str) : RankMirror (Channel.newOnUserJoin n) := by
+  have hl : ∀ m, Map.lookup m (Channel.newOnUserJoin n).users =
+      if n = m then some ChanUserModes.createdChannel else none := fun m => rfl
+  have hm : ∀ m, KSet.mem m [n] = decide (n = m) := by
+    intro m; by_cases e : n = m <;> simp [KSet.mem, e]
+  have he : ∀ m, KSet.mem m [] = false := fun m => rfl
+  constructor <;> intro m
+  · show KSet.mem m [n] = true ↔ _
+    rw [hm, hl]; by_cases e : n = m <;> simp [e, ChanUserModes.createdChannel]
+  · show KSet.mem m [] = true ↔ _
+    rw [he, hl]; by_cases e : n = m <;> simp [e, ChanUserModes.createdChannel]
+  · show KSet.mem m [n] = true ↔ _
+    rw [hm, hl]; by_cases e : n = m <;> simp [e, ChanUserModes.createdChannel]
+  · show KSet.mem m [] = true ↔ _
+    rw [he, hl]; by_cases e : n = m <;> simp [e, ChanUserModes.createdChannel]
+  · show KSet.mem m [] = true ↔ _
+    rw [he, hl]; by_cases e : n = m <;> simp [e, ChanUserModes.createdChannel]
+
+theorem KSet.insert_nodup (k : Str) (s : KSet) (h : s.Nodup) : (KSet.insert k s).Nodup := by
+  unfold KSet.insert
+  split
+  · exact h
+  · rename_i hm
+    rw [List.nodup_append]
+    refine ⟨h, by simp, ?_⟩
+    intro a ha b hb
+    simp only [List.mem_singleton] at hb
+    subst hb
+    intro e; subst e
+    exact hm ((KSet.mem_iff _ _).mpr ha)
+
+/-- common part of the two `joinOne` cases -/
+theorem joinOne_memInv_aux {w : World} {nick chn : Str} {create : Bool} {C' : Channel} (h : MemInv w)
+    (hn : Map.contains nick w.users = true)
+    (hch : (joinOne nick chn create w).channels = Map.insert chn C' w.channels)
+    (hp : (joinOne nick chn create w).panicked = w.panicked)
+    (hnd : (Map.keys C'.users).Nodup) (hrm : RankMirror C') (hne : C'.users ≠ [])
+    (hself : Map.contains nick C'.users = true)
+    (hoth : ∀ m, m ≠ nick → Map.contains m C'.users = w.memOf chn m) :
+    MemInv (joinOne nick chn create w) := by
+  have hus := joinOne_users nick chn create w
+  have hlk : Map.lookup chn (joinOne nick chn create w).channels = some C' := by
+    rw [hch]; exact Map.lookup_insert_eq _ _ _
+  refine h.update (ch := chn) (n := nick) ?_ ?_ ?_ ?_ ?_ ?_ ?_ ?_ ?_ ?_
+  · rw [hp]; exact h.noPanic
+  · rw [hch]; exact Map.keys_insert_nodup _ _ _ h.chansNodup
+  · intro ch' hne'; rw [hch]; exact Map.lookup_insert_ne ch' chn _ _ (fun e => hne' e.symm)
+  · intro m hne'
+    rw [hus, Map.lookup_modify, if_neg (fun e => hne' e.symm)]
+  · intro u' hu'
+    rw [hus, Map.lookup_modify, if_pos rfl] at hu'
+    cases hu : Map.lookup nick w.users with
+    | none => rw [hu] at hu'; cases hu'
+    | some u =>
+      rw [hu] at hu'
+      simp only [Option.map_some, Option.some.injEq] at hu'
+      subst hu'
+      refine ⟨u, rfl, fun hnd' => KSet.insert_nodup _ _ hnd', fun ch' hne' => ?_⟩
+      show KSet.mem ch' (KSet.insert chn u.channels) = _
+      rw [KSet.mem_insert]; simp [hne']
+  · intro m hc; rw [hus, Map.contains_modify]; exact hc
+  · intro C'' hC''
+    rw [hlk] at hC''; cases hC''
+    exact ⟨hnd, hrm, fun e => absurd e hne⟩
+  · intro m hne'; rw [World.memOf_of_lookup hlk]; exact hoth m hne'
+  · intro u' hu'
+    rw [hus, Map.lookup_modify, if_pos rfl] at hu'
+    rw [World.memOf_of_lookup hlk, hself]
+    cases hu : Map.lookup nick w.users with
+    | none => rw [hu] at hu'; cases hu'
+    | some u =>
+      rw [hu] at hu'
+      simp only [Option.map_some, Option.some.injEq] at hu'
+      subst hu'
+      show KSet.mem chn (KSet.insert chn u.channels) = true ↔ _
+      rw [KSet.mem_insert]; simp
+  · intro _; exact hn
+
+theorem joinOne_memInv_create {w : World} {nick chn : Str} (h : MemInv w)
+    (hn : Map.contains nick w.users = true)
+    (hc : ∀ m, m ≠ nick → w.memOf chn m = false) :
+    MemInv (joinOne nick chn true w) ∧
+    ∀ ch m, (joinOne nick chn true w).memOf ch m =
+      (w.memOf ch m || (decide (ch = chn) && decide (m = nick))) := by
+  have hcr := joinOne_create nick chn w
+  have hlk : Map.lookup chn (joinOne nick chn true w).channels = some (Channel.newOnUserJoin nick) := by
+    rw [hcr.1]; exact Map.lookup_insert_eq _ _ _
+  have hoth : ∀ m, m ≠ nick → Map.contains m (Channel.newOnUserJoin nick).users = w.memOf chn m := by
+    intro m hne
+    rw [hc m hne]
+    simp [Channel.newOnUserJoin, Map.contains, Map.lookup, Ne.symm hne]
+  have hself : Map.contains nick (Channel.newOnUserJoin nick).users = true := by
+    simp [Channel.newOnUserJoin, Map.contains, Map.lookup]
+  refine ⟨joinOne_memInv_aux h hn hcr.1 hcr.2 ?_ (rankMirror_newOnUserJoin nick) ?_ hself hoth, ?_⟩
+  · simp [Channel.newOnUserJoin, Map.keys]
+  · simp [Channel.newOnUserJoin]
+  · intro ch m
+    by_cases e : ch = chn
+    · subst e
+      rw [World.memOf_of_lookup hlk]
+      by_cases e2 : m = nick
+      · subst e2; rw [hself]; simp
+      · rw [hoth m e2]; simp [e2]
+    · rw [World.memOf_congr (w := w)
+        (by rw [hcr.1]; exact Map.lookup_insert_ne ch chn _ _ (fun x => e x.symm))]
+      simp [e]
+
+theorem joinOne_memInv_add {w : World} {nick chn : Str} {C : Channel} (h : MemInv w)
+    (hn : Map.contains nick w.users = true)
+    (hC : Map.lookup chn w.channels = some C)
+    (hcase : Map.contains nick C.users = false ∨ C.addUser nick = C) :
+    MemInv (joinOne nick chn false w) ∧
+    ∀ ch m, (joinOne nick chn false w).memOf ch m =
+      (w.memOf ch m || (decide (ch = chn) && decide (m = nick))) := by
+  have hcr := joinOne_add (nick := nick) hC
+  have hlk : Map.lookup chn (joinOne nick chn false w).channels = some (C.addUser nick) := by
+    rw [hcr.1]; exact Map.lookup_insert_eq _ _ _
+  have hoth : ∀ m, m ≠ nick → Map.contains m (C.addUser nick).users = w.memOf chn m := by
+    intro m hne
+    rw [World.memOf_of_lookup hC, Channel.addUser_users, Map.contains_insert]
+    simp [hne]
+  have hself : Map.contains nick (C.addUser nick).users = true := by
+    rw [Channel.addUser_users, Map.contains_insert]; simp
+  refine ⟨joinOne_memInv_aux h hn hcr.1 hcr.2 ?_ ?_ ?_ hself hoth, ?_⟩
+  · rw [Channel.addUser_users]
+    exact Map.keys_insert_nodup _ _ _ (h.membersNodup chn C hC)
+  · rcases hcase with hc | hc
+    · exact RankMirror.addUser (h.rankMirror chn C hC) ((Map.contains_false_iff _ _).mp hc)
+    · rw [hc]; exact h.rankMirror chn C hC
+  · intro e
+    rw [e] at hself
+    simp [Map.contains, Map.lookup] at hself
+  · intro ch m
+    by_cases e : ch = chn
+    · subst e
+      rw [World.memOf_of_lookup hlk]
+      by_cases e2 : m = nick
+      · subst e2; rw [hself]; simp
+      · rw [hoth m e2]; simp [e2]
+    · rw [World.memOf_congr (w := w)
+        (by rw [hcr.1]; exact Map.lookup_insert_ne ch chn _ _ (fun x => e x.symm))]
+      simp [e]
+
+/-! ### JOIN: the insertion loop -/
+
+/-- what the decision list of `joinDecide` guarantees (relative to the pre-state `w0`) -/
+def DecOK (w0 : World) (nick : Str) : List (Bool × Bool) → List Str → Prop
+  | (join, create) :: ds, chn :: chs =>
+      (join = true → if create = true then Map.lookup chn w0.channels = none
+                     else ∃ C0, Map.lookup chn w0.channels = some C0 ∧
+                            Map.contains nick C0.users = false) ∧
+      DecOK w0 nick ds chs
+  | _, _ => True
+
+/-- `ch` is a listed channel whose decision is `true` -/
+def joined (ds : List (Bool × Bool)) (chs : List Str) (ch : Str) : Bool :=
+  (ds.zip chs).any (fun p => p.1.1 && decide (p.2 = ch))
+
+/-- loop invariant of `joinApply` relative to the pre-state `w0` -/
+structure JoinInv (w0 : World) (nick : Str) (w : World) : Prop where
+  fresh : ∀ ch, Map.lookup ch w0.channels = none → ∀ m, m ≠ nick → w.memOf ch m = false
+  old : ∀ ch C0, Map.lookup ch w0.channels = some C0 → Map.contains nick C0.users = false →
+    Map.lookup ch w.channels = some C0 ∨ Map.lookup ch w.channels = some (C0.addUser nick)
+
+theorem JoinInv.init (w0 : World) (nick : Str) : JoinInv w0 nick w0 where
+  fresh := fun _ h m _ => World.memOf_of_none h m
+  old := fun _ _ h _ => Or.inl h
+
+theorem joinApply_inv (w0 : World) (nick : Str) :
+    ∀ (ds : List (Bool × Bool)) (chs : List Str) (w : World), DecOK w0 nick ds chs → MemInv w →
+      Map.contains nick w.users = true → JoinInv w0 nick w →
+      MemInv (joinApply nick ds chs w) ∧ Frame w (joinApply nick ds chs w) ∧
+      ∀ ch m, (joinApply nick ds chs w).memOf ch m =
+        (w.memOf ch m || (decide (m = nick) && joined ds chs ch)) := by
+  intro ds
+  induction ds with
+  | nil =>
+    intro chs w _ h _ _
+    have e : joinApply nick [] chs w = w := by cases chs <;> rfl
+    rw [e]
+    exact ⟨h, Frame.refl _, fun ch m => by simp [joined]⟩
+  | cons d ds ih =>
+    intro chs w hd h hn hj
+    obtain ⟨join, create⟩ := d
+    cases chs with
+    | nil =>
+      have e : joinApply nick ((join, create) :: ds) [] w = w := rfl
+      rw [e]
+      exact ⟨h, Frame.refl _, fun ch m => by simp [joined]⟩
+    | cons chn chs =>
+      rw [joinApply_cons]
+      obtain ⟨hd1, hd2⟩ := hd
+      have hjoined : ∀ ch, joined ((join, create) :: ds) (chn :: chs) ch =
+          ((join && decide (chn = ch)) || joined ds chs ch) := fun ch => by
+        simp [joined]
+      cases join with
+      | false =>
+        simp only [Bool.false_eq_true, ↓reduceIte]
+        obtain ⟨i1, i2, i3⟩ := ih chs w hd2 h hn hj
+        refine ⟨i1, i2, fun ch m => ?_⟩
+        rw [i3, hjoined]; simp
+      | true =>
+        simp only [↓reduceIte]
+        have hd1 := hd1 rfl
+        have key : MemInv (joinOne nick chn create w) ∧ JoinInv w0 nick (joinOne nick chn create w) ∧
+            ∀ ch m, (joinOne nick chn create w).memOf ch m =
+              (w.memOf ch m || (decide (ch = chn) && decide (m = nick))) := by
+          cases create with
+          | true =>
+            simp only [↓reduceIte] at hd1
+            obtain ⟨m1, e1⟩ := joinOne_memInv_create h hn (hj.fresh chn hd1)
+            refine ⟨m1, ⟨?_, ?_⟩, e1⟩
+            · intro ch hch m hm
+              rw [e1, hj.fresh ch hch m hm]; simp [hm]
+            · intro ch C0 hch hc
+              have hne : chn ≠ ch := by
+                intro e; subst e; rw [hd1] at hch; cases hch
+              rw [(joinOne_create nick chn w).1, Map.lookup_insert_ne ch chn _ _ hne]
+              exact hj.old ch C0 hch hc
+          | false =>
+            simp only [Bool.false_eq_true, ↓reduceIte] at hd1
+            obtain ⟨C0, hC0, hnc⟩ := hd1
+            have hcur : ∃ C, Map.lookup chn w.channels = some C ∧
+                (Map.contains nick C.users = false ∨ C.addUser nick = C) ∧
+                C.addUser nick = C0.addUser nick := by
+              rcases hj.old chn C0 hC0 hnc with hc | hc
+              · exact ⟨C0, hc, Or.inl hnc, rfl⟩
+              · exact ⟨C0.addUser nick, hc, Or.inr (Channel.addUser_idem _ _), Channel.addUser_idem _ _⟩
+            obtain ⟨C, hC, hcase, hidem⟩ := hcur
+            obtain ⟨m1, e1⟩ := joinOne_memInv_add h hn hC hcase
+            refine ⟨m1, ⟨?_, ?_⟩, e1⟩
+            · intro ch hch m hm
+              rw [e1, hj.fresh ch hch m hm]; simp [hm]
+            · intro ch C0' hch hc
+              rw [(joinOne_add (nick := nick) hC).1]
+              by_cases hne : chn = ch
+              · subst hne
+                rw [hC0] at hch; cases hch
+                rw [Map.lookup_insert_eq, hidem]
+                exact Or.inr rfl
+              · rw [Map.lookup_insert_ne ch chn _ _ hne]
+                exact hj.old ch C0' hch hc
+        obtain ⟨m1, j1, e1⟩ := key
+        have f1 := joinOne_frame nick chn create w
+        obtain ⟨i1, i2, i3⟩ := ih chs _ hd2 m1 (by rw [f1.contains]; exact hn) j1
+        refine ⟨i1, f1.trans i2, fun ch m => ?_⟩
+        rw [i3, e1, hjoined]
+        by_cases a : ch = chn
+        · subst a; by_cases b : m = nick <;> simp [b]
+        · have a' : ¬ chn = ch := fun e => a e.symm
+          by_cases b : m = nick <;> simp [a, a', b]
+
+/-! ### JOIN: the decision loop -/
+
+theorem joinCheckExisting_true {ch : Channel} {chname : Str} {key : Option (Option Str)}
+    {source nick client : Str} {inv : KSet}
+    (h : (joinCheckExisting ch chname key source nick client inv).1 = true) :
+    Map.contains nick ch.users = false := by
+  unfold joinCheckExisting at h
+  simp only [Bool.and_eq_true, Bool.not_eq_true'] at h
+  exact h.2
+
+theorem joinDecide_ok (cfg : Cfg) (w : World) (cn : Conn) (nick : Str) (inv : KSet) :
+    ∀ (channels : List Str) (keys : List (Option Str)) (cnt : Nat),
+      DecOK w nick (joinDecide cfg w cn nick inv channels keys cnt).1 channels := by
+  intro channels
+  induction channels with
+  | nil => intro keys cnt; trivial
+  | cons chn rest ih =>
+    intro keys cnt
+    unfold joinDecide
+    dsimp only
+    cases hl : Map.lookup chn w.channels with
+    | none =>
+      dsimp only
+      cases hmj : cfg.maxJoins with
+      | none =>
+        dsimp only
+        exact ⟨fun _ => by simp [hl], ih _ _⟩
+      | some mj =>
+        dsimp only
+        exact ⟨fun _ => by simp [hl], ih _ _⟩
+    | some C =>
+      dsimp only
+      cases hmj : cfg.maxJoins with
+      | none =>
+        dsimp only
+        refine ⟨fun hj => ?_, ih _ _⟩
+        simp only [Bool.false_eq_true, ↓reduceIte]
+        exact ⟨C, hl, joinCheckExisting_true hj⟩
+      | some mj =>
+        dsimp only
+        refine ⟨fun hj => ?_, ih _ _⟩
+        simp only [Bool.false_eq_true, ↓reduceIte]
+        simp only [Bool.and_eq_true] at hj
+        exact ⟨C, hl, joinCheckExisting_true hj.1⟩
+
+/-! ### JOIN: the announcement loop (and NAMES) -/
+
+section
+open Reply
+
+theorem reply_foldl_w' {β : Type} (cfg : Cfg) (f : β → Str) (es : List β) (x : Ctx) :
+    (es.foldl (fun x e => x.reply cfg (f e)) x).w = x.w := by
+  induction es generalizing x with
+  | nil => rfl
+  | cons e es ih => simp only [List.foldl_cons]; rw [ih]; rfl
+
+theorem ite_some_isNone {α : Type} (b : Bool) (a a' : α) :
+    (if b = true then some a else some a').isNone = false := by cases b <;> rfl
+
+theorem names_visible_ok (cn : Conn) (ch : Channel) (users : Map User) (inCh : Bool)
+    (h : ∀ n, n ∈ Map.keys ch.users → Map.contains n users = true) :
+    (ch.users.map (fun (p : Str × ChanUserModes) =>
+      match Map.lookup p.1 users with
+      | none => (none : Option (Str × Str))
+      | some u => if (!u.modes.invisible || inCh) = true
+                  then some (p.2.prefixStr cn.multiPrefix, p.1) else some ([], []))).any (·.isNone) = false := by
+  rw [List.any_eq_false]
+  intro o ho
+  obtain ⟨⟨unick, chum⟩, hp, rfl⟩ := List.mem_map.mp ho
+  have hk : unick ∈ Map.keys ch.users := List.mem_map.mpr ⟨(unick, chum), hp, rfl⟩
+  obtain ⟨u, hu⟩ := (Map.contains_iff _ _).mp (h unick hk)
+  dsimp only
+  rw [hu]
+  dsimp only
+  rw [ite_some_isNone]
+  simp
+
+theorem namesLines_w (cfg : Cfg) (cn : Conn) (chname : Str) (ch : Channel) (users : Map User) (x : Ctx)
+    (h : ∀ n, n ∈ Map.keys ch.users → Map.contains n users = true) :
+    (namesLines cfg cn chname ch users x).w = x.w := by
+  unfold namesLines
+  dsimp only
+  rw [reply_foldl_w']
+  cases cn.nick with
+  | none =>
+    dsimp only
+    split
+    · rename_i hany
+      exact Bool.noConfusion (hany.symm.trans (names_visible_ok cn ch users false h))
+    · rfl
+  | some n =>
+    dsimp only
+    split
+    · rename_i hany
+      exact Bool.noConfusion (hany.symm.trans (names_visible_ok cn ch users (Map.contains n ch.users) h))
+    · rfl
+
+theorem sendNamesFromChannel_w (cfg : Cfg) (c : Nat) (chname : Str) (ch : Channel) (e : Bool) (x : Ctx)
+    (h : ∀ n, n ∈ Map.keys ch.users → Map.contains n x.w.users = true) :
+    (sendNamesFromChannel cfg c chname ch e x).w = x.w := by
+  have hnl := namesLines_w cfg (x.conn c) chname ch x.w.users x h
+  unfold sendNamesFromChannel
+  dsimp only
+  generalize x.conn c = cn at hnl ⊢
+  cases cn.nick <;> dsimp only <;> split <;> (try split) <;>
+    first | rfl | exact hnl | (rw [Ctx.reply_w]; exact hnl)
+
+theorem sendOthers_foldl_w (ns : List Str) (nick src t : Str) (x : Ctx)
+    (h : ∀ n, n ∈ ns → Map.contains n x.w.users = true) :
+    (ns.foldl (fun x n => if (n != nick) = true then x.sendDisplay n src t else x) x).w = x.w := by
+  induction ns generalizing x with
+  | nil => rfl
+  | cons n ns ih =>
+    simp only [List.foldl_cons]
+    have h1 : (if (n != nick) = true then x.sendDisplay n src t else x).w = x.w := by
+      split
+      · exact Ctx.sendDisplay_w_eq x n src t (h n (List.mem_cons_self ..))
+      · rfl
+    rw [ih _ (by intro m hm; rw [h1]; exact h m (List.mem_cons_of_mem _ hm))]
+    exact h1
+
+/-- one iteration of the third loop of `process_join` -/
+def announceOne (cfg : Cfg) (c : Nat) (nick : Str) (join : Bool) (chn : Str) (x : Ctx) : Ctx :=
+  if join then
+    match Map.lookup chn x.w.channels with
+    | none => x.panic "join: channels.get(chname).unwrap"
+    | some ch =>
+      let cn := x.conn c
+      let joinMsg := str "JOIN " ++ chn
+      let x := x.replySrc cn.source joinMsg
+      let x := match ch.topic with
+        | some t => x.reply cfg (RplTopic332 cn.clientName chn t.topic)
+        | none => x
+      let x := sendNamesFromChannel cfg c chn ch true x
+      (Map.keys ch.users).foldl (fun x n =>
+        if n != nick then x.sendDisplay n cn.source joinMsg else x) x
+  else x
+
+theorem joinAnnounce_cons (cfg : Cfg) (c : Nat) (nick : Str) (join create : Bool)
+    (ds : List (Bool × Bool)) (chn : Str) (chs : List Str) (x : Ctx) :
+    joinAnnounce cfg c nick ((join, create) :: ds) (chn :: chs) x =
+      joinAnnounce cfg c nick ds chs (announceOne cfg c nick join chn x) := rfl
+
+theorem announceOne_w (cfg : Cfg) (c : Nat) (nick : Str) (join : Bool) (chn : Str) (x : Ctx)
+    (h : MemInv x.w) (hc : join = true → Map.contains chn x.w.channels = true) :
+    (announceOne cfg c nick join chn x).w = x.w := by
+  unfold announceOne
+  cases join with
+  | false => rfl
+  | true =>
+    simp only [↓reduceIte]
+    obtain ⟨C, hC⟩ := (Map.contains_iff _ _).mp (hc rfl)
+    rw [hC]
+    dsimp only
+    have hk := h.keys_are_users hC
+    have h1 : (match C.topic with
+        | some t => (x.replySrc (x.conn c).source (str "JOIN " ++ chn)).reply cfg
+            (RplTopic332 (x.conn c).clientName chn t.topic)
+        | none => x.replySrc (x.conn c).source (str "JOIN " ++ chn)).w = x.w := by
+      split <;> rfl
+    rw [sendOthers_foldl_w, sendNamesFromChannel_w, h1]
+    · rw [h1]; exact hk
+    · rw [sendNamesFromChannel_w, h1]
+      · exact hk
+      · rw [h1]; exact hk
+
+theorem joinAnnounce_w (cfg : Cfg) (c : Nat) (nick : Str) :
+    ∀ (ds : List (Bool × Bool)) (chs : List Str) (x : Ctx), MemInv x.w →
+      (∀ ch, joined ds chs ch = true → Map.contains ch x.w.channels = true) →
+      (joinAnnounce cfg c nick ds chs x).w = x.w := by
+  intro ds
+  induction ds with
+  | nil => intro chs x _ _; cases chs <;> rfl
+  | cons d ds ih =>
+    intro chs x h hj
+    obtain ⟨join, create⟩ := d
+    cases chs with
+    | nil => rfl
+    | cons chn chs =>
+      rw [joinAnnounce_cons]
+      have hjoined : ∀ ch, joined ((join, create) :: ds) (chn :: chs) ch =
+          ((join && decide (chn = ch)) || joined ds chs ch) := fun ch => by
+        simp [joined]
+      have hstep := announceOne_w cfg c nick join chn x h
+        (fun e => hj chn (by rw [hjoined, e]; simp))
+      rw [ih chs _ (by rw [hstep]; exact h)
+        (by rw [hstep]; intro ch hch; exact hj ch (by rw [hjoined, hch]; simp))]
+      exact hstep
+
+/-- the key list `process_join` hands to the decision loop -/
+def joinKeyList (keys : Option (List Str)) : List (Option Str) :=
+  match keys with
+  | some ks => ks.map some
+  | none => []
+
+/-- the decision list of a JOIN by `nick` (user record `user`) in context `x` -/
+def joinDecisions (cfg : Cfg) (c : Nat) (channels : List Str) (keys : Option (List Str)) (x : Ctx)
+    (nick : Str) (user : User) : List (Bool × Bool) :=
+  (joinDecide cfg x.w (x.conn c) nick user.invitedTo channels (joinKeyList keys) user.channels.length).1
+
+theorem processJoin_eq (cfg : Cfg) (c : Nat) (channels : List Str) (keys : Option (List Str)) (x : Ctx) :
+    processJoin cfg c channels keys x =
+      match (x.conn c).nick with
+      | none => x.panic "join: own nick unwrap"
+      | some nick =>
+        match Map.lookup nick x.w.users with
+        | none => x.panic "join: users.get(nick).unwrap"
+        | some user =>
+          joinAnnounce cfg c nick (joinDecisions cfg c channels keys x nick user) channels
+            (((joinDecide cfg x.w (x.conn c) nick user.invitedTo channels (joinKeyList keys)
+                user.channels.length).2.1.foldl (fun x e => x.reply cfg e) x).modifyW
+              (joinApply nick (joinDecisions cfg c channels keys x nick user) channels)) := rfl
+end
+
+end Irc.Memb
